@@ -31,11 +31,14 @@ CONSTANTS Req,          \* the requesting tasks
           MaxRevoke,    \* how many times the server revokes credentials
           MaxFault,     \* how many retryable faults (5xx) the server answers
           NBackoff,     \* the length of settings.networking.error_backoffs: a request is attempted NBackoff + 1 times
+          MaxExpire,    \* how many credentials pass their expiration time
           MaxRounds,    \* requests per requester
           Mode,         \* "conn": ConnectionInfo (every context has a session of its own) | "sess": AiohttpSession (one session per value)
           LoginOutcomes,\* what a login handler may return for a key: subset of {"fresh", "same", "none"}
           Variant       \* "code": as the code has it | "bykey": invalidate() removes whatever is current under the key, not the very item
-                        \* that failed (a negative variant: a late 401 on old credentials throws the fresh ones away)
+                        \* that failed (a negative variant: a late 401 on old credentials throws the fresh ones away) | "f37": the code
+                        \* before the repair F37 (extended() made the caches and the context in two blocks without looking whether
+                        \* the item was still in the vault)
 
 Keys == 1..NKeys
 NONE == 0                \* a login handler returned nothing for the key
@@ -63,6 +66,10 @@ VARIABLES
   valid,                \* the values the server accepts
   lres,                 \* the result of the login activity under way: [Keys -> values \cup {NONE}]
   att,                  \* per requester: failed attempts of the api.request call under way
+  xs,                   \* per requester: the keys whose items Vault._expire() is about to drop (decided on one reading of the clock)
+  expdV, nexp,          \* the values whose expiration time has passed; how many times that happened
+  expiredOut,           \* ghost: items dropped as expired
+  usedExpired,          \* ghost: a request left the client with an item that had been dropped as expired
   nitem, nval, nctx, nrev, nfault, rounds,
   invalidated,          \* ghost: items that vault.invalidate() has removed
   reused,               \* ghost: a request left the client with an invalidated item
@@ -72,9 +79,9 @@ VARIABLES
 vaultVars == <<cur, val, inval, ready, cache, ctxOf, ctxItem, closedS, nitem, nval, nctx>>
 lockVars  == <<holder, lockQ, condQ, woken>>
 ctlVars   == <<run, pc, cont>>
-reqVars   == <<held, hkey, hctx, att>>
-envVars   == <<valid, nrev, nfault, rounds, lres>>
-ghostVars == <<invalidated, reused, leakedCtx, logins, emptied>>
+reqVars   == <<held, hkey, hctx, att, xs>>
+envVars   == <<valid, nrev, nfault, rounds, lres, expdV, nexp>>
+ghostVars == <<invalidated, reused, leakedCtx, logins, emptied, expiredOut, usedExpired>>
 vars == <<vaultVars, lockVars, ctlVars, reqVars, envVars, ghostVars>>
 
 Sess(c) == IF Mode = "sess" THEN val[ctxItem[c]] ELSE MaxItem + c
@@ -89,8 +96,9 @@ Init ==
   /\ cache = [i \in Items |-> "none"] /\ ctxOf = [i \in Items |-> 0] /\ ctxItem = [c \in Ctxs |-> 0] /\ closedS = {}
   /\ holder = NoTask /\ lockQ = <<>> /\ condQ = {} /\ woken = {}
   /\ run = NoTask /\ pc = [t \in Task |-> "idle"] /\ cont = [t \in Task |-> "idle"]
-  /\ held = [r \in Req |-> 0] /\ hkey = [r \in Req |-> 0] /\ hctx = [r \in Req |-> 0] /\ att = [r \in Req |-> 0]
+  /\ held = [r \in Req |-> 0] /\ hkey = [r \in Req |-> 0] /\ hctx = [r \in Req |-> 0] /\ att = [r \in Req |-> 0] /\ xs = [r \in Req |-> {}]
   /\ valid = {} /\ lres = [k \in Keys |-> NONE] /\ nitem = 0 /\ nval = 0 /\ nctx = 0 /\ nrev = 0 /\ nfault = 0 /\ rounds = [r \in Req |-> 0]
+  /\ expdV = {} /\ nexp = 0 /\ expiredOut = {} /\ usedExpired = FALSE
   /\ invalidated = {} /\ reused = FALSE /\ leakedCtx = {} /\ logins = 0 /\ emptied = 0
 
 Go(t, l) == pc' = [pc EXCEPT ![t] = l]
@@ -123,18 +131,56 @@ Release(t, next) == holder = t /\ holder' = NoTask /\ Go(t, next) /\ UNCHANGED <
 \* ---- a requester: auth.authenticated around api.request --------------------------------------------------------------
 Start(r) ==
   /\ run = NoTask /\ pc[r] \in {"idle", "failed", "raised"} /\ rounds[r] < MaxRounds /\ rounds' = [rounds EXCEPT ![r] = @ + 1]
-  /\ Go(r, "A_acq") /\ run' = r /\ UNCHANGED <<vaultVars, lockVars, cont, reqVars, valid, nrev, nfault, lres, ghostVars>>
+  /\ Go(r, "A_acq") /\ run' = r /\ UNCHANGED <<vaultVars, lockVars, cont, reqVars, valid, nrev, nfault, lres, expdV, nexp, ghostVars>>
 \* Vault._items(), first block: wait for readiness, select
 A_acq(r) == run = r /\ pc[r] = "A_acq" /\ Acquire(r, "A_chk") /\ UNCHANGED <<vaultVars, condQ, woken, reqVars, envVars, ghostVars>>
 A_chk(r) ==
   /\ run = r /\ pc[r] = "A_chk"
-  /\ IF ~ready THEN CondWait(r, "A_chk") ELSE Go(r, "A_sel") /\ UNCHANGED <<lockVars, cont, run>>
+  /\ IF ~ready THEN CondWait(r, "A_chk") ELSE Go(r, "X_chk") /\ UNCHANGED <<lockVars, cont, run>>
+  /\ UNCHANGED <<vaultVars, reqVars, envVars, ghostVars>>
+\* Vault._expire(): on one reading of the clock, every current item whose expiration time has passed is flushed and dropped (not
+\* remembered as invalid); if that leaves nothing, re-authentication is asked for and awaited -- then on to the selection
+ExpiredKeys == {k \in Keys : cur[k] # 0 /\ val[cur[k]] \in expdV}
+X_chk(r) ==
+  /\ run = r /\ pc[r] = "X_chk" /\ holder = r
+  /\ xs' = [xs EXCEPT ![r] = ExpiredKeys] /\ (IF ExpiredKeys = {} THEN Go(r, "A_sel") ELSE Go(r, "X_flush"))
+  /\ UNCHANGED <<vaultVars, lockVars, cont, run, held, hkey, hctx, att, envVars, ghostVars>>
+XVictims(r) == {cur[k] : k \in xs[r]}
+X_flush(r) ==       \* the next one (in the order of the dictionary: any)
+  /\ run = r /\ pc[r] = "X_flush" /\ holder = r
+  /\ \E k \in xs[r] :
+       /\ hkey' = [hkey EXCEPT ![r] = k]
+       /\ IF cache[cur[k]] = "ctx" THEN closedS' = closedS \cup {Sess(ctxOf[cur[k]])} /\ run' \in {r, NoTask}
+                                  ELSE closedS' = closedS /\ run' = r
+  /\ Go(r, "X_flushing")
+  /\ UNCHANGED <<cur, val, inval, ready, cache, ctxOf, ctxItem, nitem, nval, nctx, lockVars, cont, held, hctx, att, xs, envVars, ghostVars>>
+X_flushed(r) ==     \* close() has returned: caches = None
+  /\ (run = r \/ run = NoTask) /\ pc[r] = "X_flushing" /\ holder = r /\ run' = r
+  /\ LET i == cur[hkey[r]] IN cache' = [cache EXCEPT ![i] = "none"] /\ ctxOf' = [ctxOf EXCEPT ![i] = 0]
+  /\ Go(r, "X_del")
+  /\ UNCHANGED <<cur, val, inval, ready, ctxItem, closedS, nitem, nval, nctx, lockVars, cont, reqVars, envVars, ghostVars>>
+X_del(r) ==         \* the item is dropped -- and not remembered
+  /\ run = r /\ pc[r] = "X_del" /\ holder = r
+  /\ LET k == hkey[r] i == cur[k] IN
+     /\ cur' = [cur EXCEPT ![k] = 0] /\ expiredOut' = expiredOut \cup {i} /\ xs' = [xs EXCEPT ![r] = @ \ {k}]
+     /\ Go(r, IF xs[r] \ {k} = {} THEN "X_end" ELSE "X_flush")
+  /\ UNCHANGED <<val, inval, ready, cache, ctxOf, ctxItem, closedS, nitem, nval, nctx, lockVars, cont, run, held, hkey, hctx, att, envVars,
+                 invalidated, reused, leakedCtx, logins, emptied, usedExpired>>
+X_end(r) ==
+  /\ run = r /\ pc[r] = "X_end" /\ holder = r
+  /\ IF Empty THEN /\ ready' = FALSE /\ NotifyAll /\ emptied' = (IF ready THEN emptied + 1 ELSE emptied) /\ Go(r, "X_wait")
+              ELSE /\ Go(r, "A_sel") /\ UNCHANGED <<ready, condQ, woken, emptied>>
+  /\ UNCHANGED <<cur, val, inval, cache, ctxOf, ctxItem, closedS, nitem, nval, nctx, holder, lockQ, cont, run, reqVars, envVars,
+                 invalidated, reused, leakedCtx, logins, expiredOut, usedExpired>>
+X_wait(r) ==
+  /\ run = r /\ pc[r] = "X_wait"
+  /\ IF ~ready THEN CondWait(r, "X_wait") ELSE Go(r, "A_sel") /\ UNCHANGED <<lockVars, cont, run>>
   /\ UNCHANGED <<vaultVars, reqVars, envVars, ghostVars>>
 A_sel(r) ==         \* Vault.select(): LoginError when nothing is left, else one of the items of the top priority
   /\ run = r /\ pc[r] = "A_sel"
   /\ IF Empty THEN Go(r, "A_raise") /\ UNCHANGED reqVars
      ELSE \E k \in Top : held' = [held EXCEPT ![r] = cur[k]] /\ hkey' = [hkey EXCEPT ![r] = k] /\ hctx' = hctx /\ Go(r, "A_rel")
-                         /\ att' = [att EXCEPT ![r] = 0]
+                         /\ att' = [att EXCEPT ![r] = 0] /\ xs' = xs
   /\ UNCHANGED <<vaultVars, lockVars, cont, run, envVars, ghostVars>>
 A_raise(r) == run = r /\ pc[r] = "A_raise" /\ holder = r /\ holder' = NoTask /\ Go(r, "failed") /\ run' = NoTask
               /\ UNCHANGED <<vaultVars, lockQ, condQ, woken, cont, reqVars, envVars, ghostVars>>
@@ -142,8 +188,24 @@ A_rel(r) == run = r /\ pc[r] = "A_rel" /\ Release(r, "B_chk") /\ UNCHANGED <<vau
 \* Vault.extended(): item.caches = {} and the context of the item, each under the lock if it is missing
 B_chk(r) ==
   /\ run = r /\ pc[r] = "B_chk"
-  /\ IF cache[held[r]] = "none" THEN Acquire(r, "B_set") ELSE Go(r, "C_chk") /\ UNCHANGED <<holder, lockQ, cont, run>>
-  /\ UNCHANGED <<vaultVars, condQ, woken, reqVars, envVars, ghostVars>>
+  /\ IF Variant = "f37"
+     THEN (IF cache[held[r]] = "none" THEN Acquire(r, "B_set") ELSE Go(r, "C_chk") /\ UNCHANGED <<holder, lockQ, cont, run>>) /\ hctx' = hctx
+     ELSE IF cache[held[r]] # "ctx" THEN Acquire(r, "BC_set") /\ hctx' = hctx          \* one block for both, under the lock
+     ELSE Go(r, "send") /\ hctx' = [hctx EXCEPT ![r] = ctxOf[held[r]]] /\ UNCHANGED <<holder, lockQ, cont, run>>
+  /\ UNCHANGED <<vaultVars, condQ, woken, held, hkey, att, xs, envVars, ghostVars>>
+\* (since F37) under the lock: an item that has left the vault meanwhile is not revived -- the next one is taken; else its caches
+\* and its context are made if they are not there
+BC_set(r) ==
+  /\ run = r /\ pc[r] = "BC_set" /\ holder = r
+  /\ LET i == held[r] IN
+     IF cur[hkey[r]] # i THEN Go(r, "BC_stale") /\ UNCHANGED <<vaultVars, hctx>>
+     ELSE IF cache[i] = "ctx" THEN Go(r, "C_rel") /\ hctx' = [hctx EXCEPT ![r] = ctxOf[i]] /\ UNCHANGED vaultVars
+     ELSE /\ nctx < MaxCtx /\ nctx' = nctx + 1
+          /\ ctxOf' = [ctxOf EXCEPT ![i] = nctx + 1] /\ ctxItem' = [ctxItem EXCEPT ![nctx + 1] = i] /\ cache' = [cache EXCEPT ![i] = "ctx"]
+          /\ hctx' = [hctx EXCEPT ![r] = nctx + 1] /\ Go(r, "C_rel")
+          /\ UNCHANGED <<cur, val, inval, ready, closedS, nitem, nval>>
+  /\ UNCHANGED <<lockVars, cont, run, held, hkey, att, xs, envVars, ghostVars>>
+BC_stale(r) == run = r /\ pc[r] = "BC_stale" /\ Release(r, "E_acq") /\ UNCHANGED <<vaultVars, reqVars, envVars, ghostVars>>
 B_set(r) ==
   /\ run = r /\ pc[r] = "B_set" /\ holder = r
   /\ cache' = [cache EXCEPT ![held[r]] = IF @ = "none" THEN "empty" ELSE @] /\ Go(r, "B_rel")
@@ -154,7 +216,7 @@ C_chk(r) ==
   /\ IF cache[held[r]] = "none" THEN Go(r, "crashed") /\ run' = NoTask /\ UNCHANGED <<holder, lockQ, cont, hctx>>      \* `purpose not in None`
      ELSE IF cache[held[r]] = "empty" THEN Acquire(r, "C_set") /\ hctx' = hctx
      ELSE Go(r, "send") /\ hctx' = [hctx EXCEPT ![r] = ctxOf[held[r]]] /\ UNCHANGED <<holder, lockQ, cont, run>>
-  /\ UNCHANGED <<vaultVars, condQ, woken, held, hkey, att, envVars, ghostVars>>
+  /\ UNCHANGED <<vaultVars, condQ, woken, held, hkey, att, xs, envVars, ghostVars>>
 C_set(r) ==
   /\ run = r /\ pc[r] = "C_set" /\ holder = r
   /\ LET i == held[r] IN
@@ -168,7 +230,7 @@ C_set(r) ==
         /\ hctx' = [hctx EXCEPT ![r] = nctx + 1] /\ Go(r, "C_rel")
         /\ leakedCtx' = IF \E k \in Keys : cur[k] = i THEN leakedCtx ELSE leakedCtx \cup {nctx + 1}
         /\ UNCHANGED <<cur, val, inval, ready, closedS, nitem, nval>>
-  /\ UNCHANGED <<lockVars, cont, run, held, hkey, att, envVars, invalidated, reused, logins, emptied>>
+  /\ UNCHANGED <<lockVars, cont, run, held, hkey, att, xs, envVars, invalidated, reused, logins, emptied, expiredOut, usedExpired>>
 C_crash(r) == run = r /\ pc[r] = "C_crash" /\ holder = r /\ holder' = NoTask /\ Go(r, "crashed") /\ run' = NoTask
               /\ UNCHANGED <<vaultVars, lockQ, condQ, woken, cont, reqVars, envVars, ghostVars>>
 C_rel(r) == run = r /\ pc[r] = "C_rel" /\ Release(r, "send") /\ UNCHANGED <<vaultVars, reqVars, envVars, ghostVars>>
@@ -177,7 +239,8 @@ Send(r) ==
   /\ run = r /\ pc[r] = "send"
   /\ IF Sess(hctx[r]) \in closedS THEN Go(r, "D_acq") /\ UNCHANGED <<run, reused>>
      ELSE Go(r, "inflight") /\ run' = NoTask /\ reused' = (reused \/ held[r] \in invalidated)
-  /\ UNCHANGED <<vaultVars, lockVars, cont, reqVars, envVars, invalidated, leakedCtx, logins, emptied>>
+  /\ usedExpired' = (usedExpired \/ (Sess(hctx[r]) \notin closedS /\ held[r] \in expiredOut))
+  /\ UNCHANGED <<vaultVars, lockVars, cont, reqVars, envVars, invalidated, leakedCtx, logins, emptied, expiredOut>>
 \* the answer: 200 / 401 by the server's view of the value at that moment, or a retryable fault
 RespOk(r) ==
   /\ run = NoTask /\ pc[r] = "inflight" /\ val[held[r]] \in valid /\ Go(r, "idle")
@@ -188,7 +251,7 @@ Resp401(r) ==
 RespFault(r) ==     \* a retryable fault: back off and retry on the same context, or escalate when the backoffs are used up
   /\ run = NoTask /\ pc[r] = "inflight" /\ nfault < MaxFault /\ nfault' = nfault + 1
   /\ IF att[r] < NBackoff THEN Go(r, "backoff") /\ att' = [att EXCEPT ![r] = @ + 1] ELSE Go(r, "raised") /\ att' = att
-  /\ UNCHANGED <<vaultVars, lockVars, run, cont, held, hkey, hctx, valid, nrev, rounds, lres, ghostVars>>
+  /\ UNCHANGED <<vaultVars, lockVars, run, cont, held, hkey, hctx, xs, valid, nrev, rounds, lres, expdV, nexp, ghostVars>>
 Retry(r) ==         \* after the backoff: the same context again
   /\ run = NoTask /\ pc[r] = "backoff" /\ Go(r, "send") /\ run' = r
   /\ UNCHANGED <<vaultVars, lockVars, cont, reqVars, envVars, ghostVars>>
@@ -217,13 +280,13 @@ D_del(r) ==         \* the item is remembered as invalid (the last three per key
      /\ inval' = [inval EXCEPT ![k] = Append(Last2(@), i)] /\ cur' = [cur EXCEPT ![k] = 0]
      /\ invalidated' = invalidated \cup {i}
   /\ Go(r, "D_empty")
-  /\ UNCHANGED <<val, ready, cache, ctxOf, ctxItem, closedS, nitem, nval, nctx, lockVars, cont, run, reqVars, envVars, reused, leakedCtx, logins, emptied>>
+  /\ UNCHANGED <<val, ready, cache, ctxOf, ctxItem, closedS, nitem, nval, nctx, lockVars, cont, run, reqVars, envVars, reused, leakedCtx, logins, emptied, expiredOut, usedExpired>>
 D_empty(r) ==       \* nothing left: ask for re-authentication and wait for it
   /\ run = r /\ pc[r] = "D_empty" /\ holder = r
   /\ IF Empty THEN /\ ready' = FALSE /\ NotifyAll /\ emptied' = (IF ready THEN emptied + 1 ELSE emptied) /\ Go(r, "D_wait")
               ELSE /\ Go(r, "D_after") /\ UNCHANGED <<ready, condQ, woken, emptied>>
   /\ UNCHANGED <<cur, val, inval, cache, ctxOf, ctxItem, closedS, nitem, nval, nctx, holder, lockQ, cont, run, reqVars, envVars,
-                 invalidated, reused, leakedCtx, logins>>
+                 invalidated, reused, leakedCtx, logins, expiredOut, usedExpired>>
 D_wait(r) ==
   /\ run = r /\ pc[r] = "D_wait"
   /\ IF ~ready THEN CondWait(r, "D_wait") ELSE Go(r, "D_after") /\ UNCHANGED <<lockVars, cont, run>>
@@ -261,7 +324,7 @@ Login(res) ==
   /\ lres' = Concrete(res) /\ nval' = nval + Cardinality(Fresh(res)) /\ valid' = valid \cup {Concrete(res)[k] : k \in Fresh(res)}
   /\ logins' = logins + 1 /\ Go(AUTH, "a_popacq") /\ run' = AUTH
   /\ UNCHANGED <<cur, val, inval, ready, cache, ctxOf, ctxItem, closedS, nitem, nctx, lockVars, cont, reqVars, nrev, nfault, rounds,
-                 invalidated, reused, leakedCtx, emptied>>
+                 expdV, nexp, invalidated, reused, leakedCtx, emptied, expiredOut, usedExpired>>
 a_popacq == run = AUTH /\ pc[AUTH] = "a_popacq" /\ Acquire(AUTH, "a_pop") /\ UNCHANGED <<vaultVars, condQ, woken, reqVars, envVars, ghostVars>>
 \* Vault.populate(): _update_converted (an item whose value equals a remembered invalid one of its key is not taken), ready, notify
 Refused(k, v) == v \in {val[i] : i \in Range(inval[k])}
@@ -280,9 +343,14 @@ a_rel == run = AUTH /\ pc[AUTH] = "a_rel" /\ Release(AUTH, "a_acq") /\ UNCHANGED
 \* ---- the server revokes credentials -------------------------------------------------------------------------------------
 Revoke(v) ==
   /\ run = NoTask /\ v \in valid /\ nrev < MaxRevoke /\ nrev' = nrev + 1 /\ valid' = valid \ {v}
-  /\ UNCHANGED <<vaultVars, lockVars, ctlVars, reqVars, nfault, rounds, lres, ghostVars>>
+  /\ UNCHANGED <<vaultVars, lockVars, ctlVars, reqVars, nfault, rounds, lres, expdV, nexp, ghostVars>>
+\* ... and time passes the expiration of some credentials
+Expire(v) ==
+  /\ run = NoTask /\ v \in 1..(nval + NKeys) /\ v \notin expdV /\ nexp < MaxExpire      \* (also credentials that are born expired)
+  /\ nexp' = nexp + 1 /\ expdV' = expdV \cup {v}
+  /\ UNCHANGED <<vaultVars, lockVars, ctlVars, reqVars, valid, nrev, nfault, rounds, lres, ghostVars>>
 
-ReqStep(r) == A_acq(r) \/ A_chk(r) \/ A_sel(r) \/ A_raise(r) \/ A_rel(r) \/ B_chk(r) \/ B_set(r) \/ B_rel(r) \/ C_chk(r) \/ C_set(r)
+ReqStep(r) == X_chk(r) \/ X_flush(r) \/ X_flushed(r) \/ X_del(r) \/ X_end(r) \/ X_wait(r) \/ A_acq(r) \/ A_chk(r) \/ A_sel(r) \/ A_raise(r) \/ A_rel(r) \/ B_chk(r) \/ BC_set(r) \/ BC_stale(r) \/ B_set(r) \/ B_rel(r) \/ C_chk(r) \/ C_set(r)
               \/ C_crash(r) \/ C_rel(r) \/ Send(r) \/ D_acq(r) \/ D_chk(r) \/ D_flush(r) \/ D_flushed(r) \/ D_del(r) \/ D_empty(r) \/ D_wait(r)
               \/ D_after(r) \/ E_acq(r) \/ E_chk(r) \/ Reacquire(r)
 ReqResume(r) == Grant(r) \/ Wake(r) \/ RespOk(r) \/ Resp401(r) \/ RespFault(r) \/ Retry(r)
@@ -291,6 +359,7 @@ LoginResults == [Keys -> {FRESH, NONE} \cup PrevVals]
 Next == \/ \E r \in Req : Start(r) \/ ReqStep(r) \/ ReqResume(r)
         \/ AuthStep \/ (\E res \in LoginResults : Login(res))
         \/ \E v \in valid : Revoke(v)
+        \/ \E v \in 1..(nval + NKeys) : Expire(v)
 
 Fairness == /\ \A r \in Req : WF_vars(ReqStep(r) \/ ReqResume(r))
             /\ WF_vars(AuthStep \/ \E res \in LoginResults : Login(res))
@@ -307,12 +376,14 @@ NoCrash == \A r \in Req : pc[r] \notin {"crashed", "impossible"}
 SingleReauth == logins <= emptied + 1 /\ emptied <= logins
 LoginOnlyWhenNotReady == [][logins' # logins => ~ready]_vars
 \* the lock is held only by the task that is running, or across the close() of a flushed context
-LockDiscipline == holder # NoTask => (run = holder \/ pc[holder] = "D_flushing")
+LockDiscipline == holder # NoTask => (run = holder \/ pc[holder] \in {"D_flushing", "X_flushing"})
 \* every session that was opened for a context is closed once its item has left the vault (no leak)
 NoLeak == leakedCtx = {}
 \* a re-authentication is caused by a revocation: with login handlers that always return fresh, valid credentials the vault
 \* runs empty at most once per revocation (a late 401 on credentials that are gone already changes nothing)
-ReauthOnlyOnRevocation == (LoginOutcomes = {"fresh"}) => emptied <= nrev
+ReauthOnlyOnRevocation == (LoginOutcomes = {"fresh"}) => emptied <= nrev + nexp
+\* no request leaves the client with credentials that were dropped as expired
+NoExpiredUse == ~usedExpired
 \* the readiness flag tells the truth while nobody is in the middle of changing it: not ready => nothing current
 NotReadyMeansEmpty == (~ready /\ run = NoTask /\ holder = NoTask) => (Empty \/ pc[AUTH] \in {"a_pop", "a_popacq", "lockwait"})
 \* every request comes to an end (an answer or a LoginError) provided the logins are not all empty
